@@ -1,13 +1,60 @@
 /- driver protocol for Model/Formats.lean (C01) -/
 import MdVerif.Model.Formats
+import MdVerif.Model.TextFmt
 import MdVerif.Driver.Mic
 namespace MdVerif.Driver.FmtP
-open MdVerif.Mic MdVerif.Fmt MdVerif.Driver.MicP
+open MdVerif.Mic MdVerif.Fmt MdVerif.Txt MdVerif.Driver.MicP
 
 def parseF : String → Option F
   | "h5" => some .h5 | "xtc" => some .xtc | "trr" => some .trr | "dcd" => some .dcd | "nc" => some .nc | "mdcrd" => some .mdcrd
   | "xyz" => some .xyz | "lammpstrj" => some .lammpstrj | "gro" => some .gro | "pdb" => some .pdb | "dtr" => some .dtr
   | "rst7" => some .rst7 | "ncrst" => some .ncrst | _ => none
+
+/-- text travels with blanks written as `_` (no numeric field contains an underscore) -/
+def enc (s : List Char) : String := String.ofList (s.map (fun c => if c = ' ' then '_' else c))
+def dec (s : String) : List Char := s.toList.map (fun c => if c = '_' then ' ' else c)
+
+def showRats : Option (List Rat) → String
+  | some xs => "ok " ++ " ".intercalate (xs.map showRat)
+  | none => "none"
+
+def allFit (w p : Nat) (xs : List Rat) : Bool := xs.all (fun x => decide (Fits w p x))
+
+/-- digit-level text model (Model/TextFmt.lean): `txt …` renders, `txtparse …` scans -/
+def handleTxt : List String → String
+  -- txt fixed <w> <p> <values…>: the fields back to back; F1/F0 tells whether every field fits its width
+  | "txt" :: "fixed" :: ws :: ps :: rest =>
+    match ws.toNat?, ps.toNat?, rest.mapM parseRat with
+    | some w, some p, some xs => s!"F{if allFit w p xs then 1 else 0} " ++ enc (renderFixedLine w p xs)
+    | _, _, _ => "bad-op"
+  -- txt spaced <w> <p> <values…>: every field preceded by one blank
+  | "txt" :: "spaced" :: ws :: ps :: rest =>
+    match ws.toNat?, ps.toNat?, rest.mapM parseRat with
+    | some w, some p, some xs => "F1 " ++ enc (renderSpaced w p xs)
+    | _, _, _ => "bad-op"
+  -- txt mdcrd <values in angstrom…>: the coordinate lines of one frame, joined by `|`
+  | "txt" :: "mdcrd" :: rest =>
+    match rest.mapM parseRat with
+    | some xs => s!"F{if allFit 8 3 xs then 1 else 0} " ++ "|".intercalate ((mdcrdFrame xs).map enc)
+    | none => "bad-op"
+  | ["txt", "box", a, b, c] =>
+    match parseRat a, parseRat b, parseRat c with
+    | some a, some b, some c => "F1 " ++ enc (mdcrdBoxLine a b c)
+    | _, _, _ => "bad-op"
+  -- txt pdb83 <values…>: `_format_83` of each value, back to back (ERR if one of them raises)
+  | "txt" :: "pdb83" :: rest =>
+    match rest.mapM parseRat with
+    | some xs => match xs.mapM pdb83 with
+      | some fs => s!"F{if allFit 8 3 xs then 1 else 0} " ++ enc fs.flatten
+      | none => "ERR"
+    | none => "bad-op"
+  | ["txtparse", "fixed", ws, line] =>
+    match ws.toNat? with
+    | some w => showRats (parseFixedLine w (dec line))
+    | none => "bad-op"
+  | ["txtparse", "tokens", line] => showRats (parseTokens (dec line))
+  | ["txtparse", "mdcrd", block] => showRats (mdcrdParse ((block.splitOn "|").map dec))
+  | _ => "bad-op"
 
 def handleFmt : List String → String
   -- fmtq <format> <gro precision> <n atoms> <values in nm …>: stored (native) and loaded (nm) value of each, and the tie margin of the rounding
@@ -26,6 +73,6 @@ def handleFmt : List String → String
     match ns.toNat? with
     | some n => ",".intercalate ((List.range n).map (fun i => String.ofList (restartSuffix n i)))
     | none => "bad-op"
-  | _ => "bad-op"
+  | ws => handleTxt ws
 
 end MdVerif.Driver.FmtP
